@@ -15,13 +15,16 @@ def fullHex (bs : Bytes) : String := toHexD bs
 
 def fuelFor (bs : Bytes) : Nat := 64 * bs.length + 4096
 
-/-- the value the schema bytes of `v` denote in the library's terms: every slice / byte string the wire
-carries is non-nil (mandatory fields, vector items, members of a present flag group); members of an
-absent group stay as they are. `forced`: index of a field of the top-level object whose flag bit is set
-on the wire whatever the values say (`c02.encz`). -/
-partial def wire (R : Registry) (forced : Option Nat) : Val → Val
+/-- Rewrites a value so that two values can be compared exactly where the library gives nil-ness a
+meaning and insensitively elsewhere: every slice / byte string in a position that is mandatory on the
+wire (mandatory fields, vector items) becomes non-nil. Conditional fields, `decoded = false` (the value
+the bytes were built from): members of a present flag group become non-nil, members of an absent group
+stay as they are; `forced`: index of a field of the top-level object whose flag bit is set on the wire
+whatever the values say (`c02.encz`). `decoded = true` (what the decoder returned): the nil-ness of a
+conditional field is left as the decoder made it. -/
+partial def wire (R : Registry) (forced : Option Nat) (decoded : Bool) : Val → Val
   | .bytes _ bs => .bytes false bs
-  | .vec _ items => .vec false (items.map (wire R none))
+  | .vec _ items => .vec false (items.map (wire R none decoded))
   | .obj id fs =>
     match R.find id with
     | none => .obj id fs
@@ -32,8 +35,14 @@ partial def wire (R : Registry) (forced : Option Nat) : Val → Val
         | some fl => w0 ||| (2 ^ fl.bit % 2 ^ 32)
         | none => w0
       .obj id (List.zipWith (fun f v => match f.flag with
-        | none => wire R none v
-        | some fl => if bitSet w fl.bit then wire R none v else v) d.fields fs)
+        | none => wire R none decoded v
+        | some fl =>
+          let isNilSlice := match v with
+            | .bytes true _ => true
+            | .vec true _ => true
+            | _ => false
+          if decoded then (if isNilSlice then v else wire R none decoded v)
+          else if bitSet w fl.bit then wire R none decoded v else v) d.fields fs)
   | v => v
 
 def decLine (b v : String) (forced : Option Nat) : String :=
@@ -42,7 +51,7 @@ def decLine (b v : String) (forced : Option Nat) : String :=
   | some bs, some val =>
     match decodeUnknown Mtv.Gen.registry (fun _ => none) (fuelFor bs) [] bs with
     | .ok got =>
-      if showVal got == showVal (wire Mtv.Gen.registry forced val) then "ok"
+      if showVal (wire Mtv.Gen.registry none true got) == showVal (wire Mtv.Gen.registry forced false val) then "ok"
       else if showVal (erase got) == showVal (erase val) then "diff-nil" else "diff"
     | .err _ => "err"
     | .panic _ => "panic"
